@@ -1,26 +1,26 @@
 INIT MCInit
-NEXT XNext
+NEXT MCNext
 CONSTANTS
   CharsetClass <- MCCharsetClass
-  DelimWithCRLF = FALSE
+  DelimWithCRLF = TRUE
   PartPool <- MCPartPool
   EnvPool <- MCEnvPool
   LimitsOf <- MCLimitsOf
   Sizes <- NoSizes
   RDelims <- NoRDelims
   MaxParts = 1
-  MaxOps = 1
+  MaxOps = 0
   MaxRetry = 1
-  ContentSel = {1, 9}
-  ProfileSel = {1}
+  ContentSel = {1}
+  ProfileSel = {5, 6}
   UseJson = FALSE
   BoundarySel = {1}
   PreSel = {1}
   EpiSel = {1}
   FinSel = {TRUE}
   LimModes = {"base"}
-  EditPos <- NoPos
-  EditKinds = {}
-  EditVals = {}
-  Depth = 0
-INVARIANT ParseOfEncodeIsForm
+  EditPos <- AllPos
+  EditKinds = {"del", "ins", "sub"}
+  EditVals = {45, 88, 50}
+  Depth = 8
+INVARIANT Emit
